@@ -1088,3 +1088,60 @@ Example set_order_partial_effect :
   snd (exec_code p) = Some KeyError /\ snd (exec_code p') = Some KeyError /\
   req (fst (exec_code p)) 0 = [2] /\ req (fst (exec_code p')) 0 = [1; 2].
 Proof. vm_compute. repeat split. Qed.
+
+(* ---------- constructors of jobs and nested schedulers ---------- *)
+
+Lemma job_init_spec st j required scheduler :
+  let o := job_init_code st j required scheduler in
+  snd o = None /\
+  (forall x, In x (req (fst o) j) <-> In x (names (seqs st) required) /\ x <> j) /\
+  (forall k x, k <> j -> In x (req (fst o) k) <-> In x (req st k)) /\
+  (forall s x, In x (members (fst o) s) <->
+               In x (members st s) \/ (scheduler = Some s /\ x = j)) /\
+  (forall q, seqs (fst o) q = seqs st q).
+Proof.
+  cbv zeta. destruct (job_init_code_doc st j required scheduler) as [[E1 E2 E3 E4] He].
+  cbn [fst snd] in *. split; [exact He|]. split; [|split; [|split]].
+  - intros x. rewrite (E1 j x), req_doc_register. cbn [req set_req].
+    rewrite upd_same, In_doc_add. cbn [In]. tauto.
+  - intros k x Hk. rewrite (E1 k x), req_doc_register. cbn [req set_req].
+    rewrite upd_other by exact Hk. tauto.
+  - intros s x. rewrite (E2 s x), In_members_doc_register. cbn [members set_req In].
+    split; intros [H|[H1 H2]]; auto; right; split; auto. destruct H2 as [H2|[]]. auto.
+  - intros q. rewrite E3, seqs_doc_register. reflexivity.
+Qed.
+
+(* HJob(required=.., scheduler=..): the new job requires exactly what required= names (never
+   itself) and is registered in scheduler= *)
+Theorem newjob_spec st j required scheduler :
+  let o := step_code st (NewJob j required scheduler) in
+  snd o = None /\
+  (forall x, In x (req (fst o) j) <-> In x (names (seqs st) required) /\ x <> j) /\
+  (forall k x, k <> j -> In x (req (fst o) k) <-> In x (req st k)) /\
+  (forall s x, In x (members (fst o) s) <->
+               In x (members st s) \/ (scheduler = Some s /\ x = j)) /\
+  (forall q, seqs (fst o) q = seqs st q).
+Proof. exact (job_init_spec st j required scheduler). Qed.
+
+(* Scheduler( *items, required=.., scheduler=..): contains exactly the flattened items, and is
+   itself a job with requirements that can be registered in another scheduler *)
+Theorem newsched_spec st s items required scheduler :
+  let o := step_code st (NewSched s items required scheduler) in
+  snd o = None /\
+  (forall x, In x (req (fst o) s) <-> In x (names (seqs st) required) /\ x <> s) /\
+  (forall k x, k <> s -> In x (req (fst o) k) <-> In x (req st k)) /\
+  (forall x, In x (members (fst o) s) <->
+             In x (flat (seqs st) items) \/ (scheduler = Some s /\ x = s)) /\
+  (forall s' x, s' <> s -> In x (members (fst o) s') <->
+                In x (members st s') \/ (scheduler = Some s' /\ x = s)) /\
+  (forall q, seqs (fst o) q = seqs st q).
+Proof.
+  cbv zeta. cbn [step_code].
+  set (st1 := set_members st (upd (members st) s (union [] (flatten_code (seqs st) items)))).
+  destruct (job_init_spec st1 s required scheduler) as (H0 & H1 & H2 & H3 & H4).
+  split; [exact H0|]. split; [exact H1|]. split; [exact H2|]. split; [|split; [|exact H4]].
+  - intros x. rewrite (H3 s x). unfold st1. cbn [members set_members].
+    rewrite upd_same, In_union, flatten_code_flat. cbn [In]. tauto.
+  - intros s' x Hs. rewrite (H3 s' x). unfold st1. cbn [members set_members].
+    rewrite upd_other by exact Hs. tauto.
+Qed.
